@@ -15,6 +15,7 @@ EXTENDS Strings, SequencesExt
 PredAccepts(pred, origin) ==
   CASE pred = "suffix" -> HasSuffix(ToLower(origin), ".example.com")
     [] pred = "always" -> TRUE
+    [] pred = "exactlc" -> origin = "https://shop.example.com"      \* case-sensitive
     [] OTHER           -> FALSE
 
 OriginAllowed(cfg, origin) ==
